@@ -5,6 +5,7 @@ go 1.23.0
 require (
 	github.com/anishathalye/porcupine v1.3.0
 	github.com/matrix-org/gomatrixserverlib v0.0.0
+	github.com/miekg/dns v1.1.66
 	gopkg.in/macaroon.v2 v2.1.0
 )
 
@@ -20,6 +21,7 @@ require (
 	github.com/tidwall/sjson v1.2.5 // indirect
 	golang.org/x/crypto v0.38.0 // indirect
 	golang.org/x/exp v0.0.0-20220827204233-334a2380cb91 // indirect
+	golang.org/x/net v0.40.0 // indirect
 	golang.org/x/sys v0.33.0 // indirect
 )
 
